@@ -93,7 +93,10 @@ theorem recvItems_fail_code (cfg : CCfg) (enc : Option Compressor) :
       · cases h; exact codes_nonzero.1
     | endStream e m => simp only [recvItems] at h; split at h <;> cases h; exact codes_nonzero.1
     | webTrailer b => simp only [recvItems] at h; split at h <;> cases h; exact codes_nonzero.1
-    | raw d => simp only [recvItems] at h; cases h; exact codes_nonzero.1
+    | raw d =>
+      simp only [recvItems, recvCutTail] at h
+      by_cases hr : rest.isEmpty = true <;> by_cases hd : d.isEmpty = true <;> simp [hr, hd] at h <;>
+        (subst h; first | exact codes_nonzero.2.2 | exact codes_nonzero.1)
     | errorJSON w => simp only [recvItems] at h; cases h; exact codes_nonzero.1
     | errorJSONz w => simp only [recvItems] at h; cases h; exact codes_nonzero.1
 
